@@ -38,7 +38,7 @@ var c13States = []struct{ w, s string }{
 	{"namedpipe", "wait_open"}, {"namedpipe", "idle_read"},
 	{"syslog", "wait_open"}, {"syslog", "idle_read"}, {"syslog", "blocked_login"},
 	{"auditlog", "wait_open"}, {"auditlog", "idle_read"}, {"auditlog", "full_buffer"},
-	{"read", "idle_select"}, {"read", "busy_read"},
+	{"read", "idle_select"}, {"read", "busy_read"}, {"read", "inflight_failing_sink"},
 }
 
 func genC13(rt *rapid.T) c13Case {
@@ -253,6 +253,40 @@ func execC13Read(c c13Case) Outcome {
 				return fail("Read exited: %v", rig.exitErr)
 			}
 		}
+	}
+	if c.State == "inflight_failing_sink" {
+		// a correlated session with several incomplete kernel events in flight
+		// (SYSCALL record seen, PROCTITLE not yet) while the event sink has
+		// started failing: returning flushes them through the correlator
+		if c.Pre == 0 {
+			for _, ln := range audEventForOp(1, hop{K: "open", S: 1, P: 1}).Lines {
+				if err := rig.line(ln); err != nil {
+					return fail("Read exited: %v", rig.exitErr)
+				}
+			}
+		}
+		if err := rig.auditBarrier(); err != nil {
+			return fail("Read exited: %v", rig.exitErr)
+		}
+		rig.rec.mu.Lock()
+		rig.rec.FailAll = true
+		rig.rec.mu.Unlock()
+		n := 2 + c.Cap%4
+		for i := 0; i < n; i++ {
+			ae := audEventForOp(500+i, hop{K: "ev", S: 1, T: "SYSCALL", P: 1})
+			if err := rig.line(ae.Lines[0]); err != nil { // the SYSCALL record only
+				return fail("Read exited: %v", rig.exitErr)
+			}
+		}
+		if err := rig.auditBarrier(); err != nil {
+			return fail("Read exited: %v", rig.exitErr)
+		}
+		time.Sleep(time.Duration(c.DelayU) * time.Microsecond)
+		rig.cancel()
+		if _, ok := rig.waitExit(c13Bound); !ok {
+			return fail("auditd.Read with %d incomplete events in flight and a failing event sink did not return within %v of cancellation:\n%s", n, c13Bound, goroutineDump("auditd"))
+		}
+		return Outcome{NT: true, Labels: labels}
 	}
 	if c.State == "busy_read" {
 		// keep a feeder running while the cancellation arrives
